@@ -10,7 +10,7 @@ from persim.landscapes.tools import average_approx, lc_approx, snap_pl
 
 from ..core import Clause, Violation, close
 from ..oracles import landscape as L
-from ..strategies import finite, valid_family
+from ..strategies import dict_of, finite, valid_family
 from . import _land as LD
 
 FUZZ = ["sum_two"]
@@ -243,7 +243,7 @@ def run_exact_history(case, ctx):
 
 
 # stateless pair clause (also the coverage-guided target)
-s_sum_two = st.fixed_dictionaries({"a": LD.pl_function(1, 3, max_pts=8), "b": LD.pl_function(1, 3, max_pts=8),
+s_sum_two = dict_of({"a": LD.pl_function(1, 3, max_pts=8), "b": LD.pl_function(1, 3, max_pts=8),
                                    "sign": st.sampled_from([1, -1])})
 
 
